@@ -13,9 +13,11 @@ def first_seg(k):
     return k.split(".")[0].split("[")[0]
 
 
-def add_noise(rng, doc, addressed):
-    """A copy of doc that differs only in fields no predicate addresses."""
+def add_noise(rng, doc, tree):
+    """A copy of doc that differs only in fields no predicate addresses -- at the top level
+    and inside every nested object that a nested block of the rule walks."""
     d = copy.deepcopy(doc)
+    addressed = set(first_seg(k) for k in tree.keys())
     for name in ("zz_noise", "noise", "extra", "q9"):
         if name in addressed:
             continue
@@ -24,7 +26,32 @@ def add_noise(rng, doc, addressed):
             d[name] = rng.choice(["foo", 5, None, {"f": "foo"}, ["foo"], True])
         elif r < 0.7 and name in d:
             del d[name]
+    for f, node in tree.items():
+        if not node["sub"] or "." in f or "[" in f:
+            continue
+        v = d.get(f)
+        if isinstance(v, dict):
+            d[f] = add_noise(rng, v, node["sub"])
+        elif isinstance(v, list):
+            d[f] = [add_noise(rng, x, node["sub"]) if isinstance(x, dict) else x for x in v]
     return d
+
+
+def strip_unaddressed(doc, tree):
+    """the document with every unaddressed field removed (nested objects included)"""
+    addressed = set(first_seg(k) for k in tree.keys())
+    out = {}
+    for k, v in doc.items():
+        if k not in addressed:
+            continue
+        node = tree.get(k)
+        if node and node["sub"] and isinstance(v, dict):
+            out[k] = strip_unaddressed(v, node["sub"])
+        elif node and node["sub"] and isinstance(v, list):
+            out[k] = [strip_unaddressed(x, node["sub"]) if isinstance(x, dict) else x for x in v]
+        else:
+            out[k] = v
+    return out
 
 
 def run(ck):
@@ -36,12 +63,14 @@ def run(ck):
     for _ in range(n):
         det = gen.gen_rule(rng)
         tree = gen.rule_fields(det)
-        addressed = set(first_seg(k) for k in tree.keys())
         docs = []
-        for _ in range(3):
+        for _ in range(2):
             d = gen.gen_doc(rng, tree)
             docs.append(d)
-            docs.append(add_noise(rng, d, addressed))
+            docs.append(add_noise(rng, d, tree))
+        d = gen.gen_doc(rng, tree)
+        docs.append(strip_unaddressed(d, tree))      # only addressed fields (nested objects may become empty)
+        docs.append(add_noise(rng, d, tree))         # the same plus / minus unaddressed ones
         cases.append({"k": "rule", "id": ck.new_id(), "rule": rule_text(det), "docs": [D(d) for d in docs], "sw": SWS,
                       "reads": True, "_keys": set(tree.keys()), "_docs": docs})
     send = rulebase.wire(cases)
